@@ -1,1 +1,737 @@
 //! Verification hooks: regalloc (see mod.rs).
+//!
+//! Everything in this file only exists with the cargo feature `fuellabs_sway_verif`.
+//!
+//! # Abstract text form of an op list
+//!
+//! An op list is ONE token (no blanks): ops joined by `|`. Each op is
+//! `kind:defs:uses:defconst:succ:se[:asm]` where
+//!
+//! * `kind` is one of `move`, `label.<n>`, `jump.<n>`, `jnz.<n>`, `call.<n>`, `jmpaddr`,
+//!   `retcall`, `rvrt`, `comment`, `other.<MNEMONIC>[.<imm>]` (`<n>` = label number; the
+//!   immediate is printed for a few opcodes only, see [`imm_of`]),
+//! * `defs`, `uses`, `defconst` are the results of `Op::def_registers`, `Op::use_registers`,
+//!   `Op::def_const_registers` as comma separated register lists (`-` = empty) in `BTreeSet`
+//!   order,
+//! * `succ` is the result of `Op::successors` (comma separated indices into the op list, `-` = none),
+//! * `se` is `1` when the op may not be removed even if its results are dead
+//!   (`VirtualOp::has_side_effect`, every organisational op), else `0`,
+//! * the optional 7th field is the op's `Display` text with blanks replaced by `_`.
+//!
+//! A register is `v<k>` (virtual) or `c<i>` (`ConstantRegister` number `i` in declaration order,
+//! see [`CONST_REGS`]). `k` is the RANK of the virtual register's name among all virtual register
+//! names of the op list the [`Namer`] was built from, in `VirtualRegister`'s own `Ord`
+//! (string order), so `v<a> < v<b>` numerically iff the real registers compare that way.
+//! [`OpList::from_text`] builds real `Op`s from such a text (virtual register `v<k>` becomes
+//! `Virtual(format!("{k:06}"))`, which preserves the order).
+use crate::{
+    asm_generation::fuel::{
+        compiler_constants,
+        register_allocator::{self, verif_access as access, InterferenceGraph, RegisterPool},
+    },
+    asm_lang::{
+        allocated_ops::AllocatedRegister, AllocatedAbstractOp, ConstantRegister, ControlFlowOp,
+        JumpType, Label, Op, VirtualImmediate06, VirtualImmediate12, VirtualImmediate18, VirtualImmediate24, VirtualOp,
+        VirtualRegister,
+    },
+};
+use either::Either;
+use petgraph::stable_graph::NodeIndex;
+use rustc_hash::FxHashSet;
+use std::cell::RefCell;
+use std::collections::{BTreeSet, HashMap};
+
+/// Size of the register pool used by the allocator.
+pub const NUM_ALLOCATABLE_REGISTERS: usize = compiler_constants::NUM_ALLOCATABLE_REGISTERS as usize;
+
+/// `c<i>` in the text form is `CONST_REGS[i]`.
+pub(crate) const CONST_REGS: [ConstantRegister; 27] = [
+    ConstantRegister::Zero,
+    ConstantRegister::One,
+    ConstantRegister::Overflow,
+    ConstantRegister::ProgramCounter,
+    ConstantRegister::StackStartPointer,
+    ConstantRegister::StackPointer,
+    ConstantRegister::FramePointer,
+    ConstantRegister::HeapPointer,
+    ConstantRegister::Error,
+    ConstantRegister::GlobalGas,
+    ConstantRegister::ContextGas,
+    ConstantRegister::Balance,
+    ConstantRegister::InstructionStart,
+    ConstantRegister::ReturnValue,
+    ConstantRegister::ReturnLength,
+    ConstantRegister::Flags,
+    ConstantRegister::DataSectionStart,
+    ConstantRegister::CallReturnAddress,
+    ConstantRegister::CallReturnValue,
+    ConstantRegister::Scratch,
+    ConstantRegister::LocalsBase,
+    ConstantRegister::FuncArg0,
+    ConstantRegister::FuncArg1,
+    ConstantRegister::FuncArg2,
+    ConstantRegister::FuncArg3,
+    ConstantRegister::FuncArg4,
+    ConstantRegister::FuncArg5,
+];
+
+pub(crate) fn const_index(c: ConstantRegister) -> usize {
+    CONST_REGS.iter().position(|x| *x == c).unwrap_or(usize::MAX)
+}
+
+/// Machine register number of `c<i>` and of pool register `Allocated(k)` (`None` = out of range).
+pub fn const_reg_id(i: usize) -> Option<u8> {
+    CONST_REGS.get(i).map(|c| c.to_reg_id().to_u8())
+}
+pub fn pool_reg_id(k: u8) -> Option<u8> {
+    let id = compiler_constants::UPPER_ALLOCATABLE_REGISTER.checked_sub(k)?;
+    (compiler_constants::LOWER_ALLOCATABLE_REGISTER..=compiler_constants::UPPER_ALLOCATABLE_REGISTER)
+        .contains(&id)
+        .then_some(id)
+}
+
+/// Names virtual registers by their rank (see module doc).
+pub(crate) struct Namer {
+    rank: HashMap<String, usize>,
+}
+
+impl Namer {
+    pub(crate) fn for_ops(ops: &[Op]) -> Self {
+        let mut names = BTreeSet::new();
+        for op in ops {
+            let regs = op
+                .registers()
+                .into_iter()
+                .chain(op.def_registers())
+                .chain(op.use_registers());
+            for r in regs {
+                if let VirtualRegister::Virtual(n) = r {
+                    names.insert(n.clone());
+                }
+            }
+        }
+        Namer {
+            rank: names.into_iter().enumerate().map(|(i, n)| (n, i)).collect(),
+        }
+    }
+
+    pub(crate) fn reg(&self, r: &VirtualRegister) -> String {
+        match r {
+            VirtualRegister::Virtual(n) => match self.rank.get(n) {
+                Some(i) => format!("v{i}"),
+                None => format!("v?{n}"),
+            },
+            VirtualRegister::Constant(c) => format!("c{}", const_index(*c)),
+        }
+    }
+
+    pub(crate) fn regs<'a>(&self, rs: impl IntoIterator<Item = &'a VirtualRegister>) -> String {
+        let v: Vec<String> = rs.into_iter().map(|r| self.reg(r)).collect();
+        if v.is_empty() {
+            "-".into()
+        } else {
+            v.join(",")
+        }
+    }
+}
+
+fn mnemonic(op: &VirtualOp) -> String {
+    let d = format!("{op:?}");
+    d.split(|c: char| !c.is_ascii_alphanumeric())
+        .next()
+        .unwrap_or("")
+        .to_string()
+}
+
+/// Immediates that are printed in the `kind` field.
+pub(crate) fn imm_of(op: &VirtualOp) -> Option<u64> {
+    use VirtualOp::*;
+    Some(match op {
+        CFEI(_, i) | CFSI(_, i) => i.value() as u64,
+        MOVI(_, i) => i.value() as u64,
+        ADDI(_, _, i) | SUBI(_, _, i) | MULI(_, _, i) | DIVI(_, _, i) | ANDI(_, _, i)
+        | ORI(_, _, i) | XORI(_, _, i) | SLLI(_, _, i) | SRLI(_, _, i) | LW(_, _, i)
+        | LB(_, _, i) | SW(_, _, i) | SB(_, _, i) => i.value() as u64,
+        _ => return None,
+    })
+}
+
+pub(crate) fn kind_text(op: &Op) -> String {
+    match &op.opcode {
+        Either::Left(VirtualOp::MOVE(..)) => "move".into(),
+        Either::Left(VirtualOp::RVRT(..)) => "rvrt".into(),
+        Either::Left(v) => match imm_of(v) {
+            Some(i) => format!("other.{}.{}", mnemonic(v), i),
+            None => format!("other.{}", mnemonic(v)),
+        },
+        Either::Right(c) => match c {
+            ControlFlowOp::Label(l) => format!("label.{}", l.0),
+            ControlFlowOp::Comment => "comment".into(),
+            ControlFlowOp::Jump { to, type_ } => match type_ {
+                JumpType::Unconditional => format!("jump.{}", to.0),
+                JumpType::NotZero(_) => format!("jnz.{}", to.0),
+                JumpType::Call => format!("call.{}", to.0),
+            },
+            ControlFlowOp::ConfigurablesOffsetPlaceholder => "other.CFOP".into(),
+            ControlFlowOp::DataSectionOffsetPlaceholder => "other.DSOP".into(),
+            ControlFlowOp::PushAll(l) => format!("other.PUSHA.{}", l.0),
+            ControlFlowOp::PopAll(l) => format!("other.POPA.{}", l.0),
+            ControlFlowOp::JumpToAddr(_) => "jmpaddr".into(),
+            ControlFlowOp::ReturnFromCall { .. } => "retcall".into(),
+        },
+    }
+}
+
+/// The label table exactly as `liveness_analysis` builds it (a later duplicate wins).
+pub(crate) fn label_table(ops: &[Op]) -> HashMap<Label, usize> {
+    let mut m = HashMap::new();
+    for (idx, op) in ops.iter().enumerate() {
+        if let Either::Right(ControlFlowOp::Label(l)) = op.opcode {
+            m.insert(l, idx);
+        }
+    }
+    m
+}
+
+pub(crate) fn op_text(
+    op: &Op,
+    ix: usize,
+    ops: &[Op],
+    labels: &HashMap<Label, usize>,
+    nm: &Namer,
+    with_asm: bool,
+) -> String {
+    let succ = op.successors(ix, ops, labels);
+    let succ = if succ.is_empty() {
+        "-".to_string()
+    } else {
+        succ.iter().map(|s| s.to_string()).collect::<Vec<_>>().join(",")
+    };
+    let se = match &op.opcode {
+        Either::Left(v) => v.has_side_effect(),
+        Either::Right(_) => true,
+    };
+    let mut s = format!(
+        "{}:{}:{}:{}:{}:{}",
+        kind_text(op),
+        nm.regs(op.def_registers()),
+        nm.regs(op.use_registers()),
+        nm.regs(op.def_const_registers()),
+        succ,
+        se as u8
+    );
+    if with_asm {
+        let asm = format!("{}", op.opcode)
+            .split_whitespace()
+            .collect::<Vec<_>>()
+            .join("_")
+            .replace(['|', ':'], "_");
+        s.push(':');
+        s.push_str(&asm);
+    }
+    s
+}
+
+pub(crate) fn ops_text(ops: &[Op], nm: &Namer, with_asm: bool) -> String {
+    if ops.is_empty() {
+        return "-".into();
+    }
+    let labels = label_table(ops);
+    ops.iter()
+        .enumerate()
+        .map(|(ix, op)| op_text(op, ix, ops, &labels, nm, with_asm))
+        .collect::<Vec<_>>()
+        .join("|")
+}
+
+fn sets_text(sets: &[BTreeSet<VirtualRegister>], nm: &Namer) -> String {
+    if sets.is_empty() {
+        return "-".into();
+    }
+    sets.iter().map(|s| nm.regs(s.iter())).collect::<Vec<_>>().join("|")
+}
+
+/// Directed edges `a>b` of the graph (by node weight), sorted, `-` when there is none.
+fn edges_text(g: &InterferenceGraph, nm: &Namer) -> String {
+    let mut v: BTreeSet<(VirtualRegister, VirtualRegister)> = BTreeSet::new();
+    for e in g.edge_indices() {
+        if let Some((a, b)) = g.edge_endpoints(e) {
+            v.insert((g[a].clone(), g[b].clone()));
+        }
+    }
+    if v.is_empty() {
+        return "-".into();
+    }
+    v.iter()
+        .map(|(a, b)| format!("{}>{}", nm.reg(a), nm.reg(b)))
+        .collect::<Vec<_>>()
+        .join(",")
+}
+
+fn assign_text(pool: &RegisterPool, nm: &Namer) -> String {
+    let mut v: Vec<(VirtualRegister, AllocatedRegister)> = access::pool_assignment(pool);
+    v.sort();
+    if v.is_empty() {
+        return "-".into();
+    }
+    v.iter()
+        .map(|(r, a)| match a {
+            AllocatedRegister::Allocated(k) => format!("{}={}", nm.reg(r), k),
+            AllocatedRegister::Constant(c) => format!("{}=c{}", nm.reg(r), const_index(*c)),
+        })
+        .collect::<Vec<_>>()
+        .join(",")
+}
+
+// ------------------------------------------------------------------------------------------------
+// real op lists from the text form
+
+/// A list of real (crate-private) `Op`s.
+pub struct OpList {
+    pub(crate) ops: Vec<Op>,
+}
+
+fn parse_reg(t: &str) -> Result<VirtualRegister, String> {
+    if let Some(n) = t.strip_prefix('v') {
+        let k: usize = n.parse().map_err(|_| format!("bad register {t}"))?;
+        Ok(VirtualRegister::Virtual(format!("{k:06}")))
+    } else if let Some(n) = t.strip_prefix('c') {
+        let k: usize = n.parse().map_err(|_| format!("bad register {t}"))?;
+        CONST_REGS
+            .get(k)
+            .map(|c| VirtualRegister::Constant(*c))
+            .ok_or_else(|| format!("bad constant register {t}"))
+    } else {
+        Err(format!("bad register {t}"))
+    }
+}
+
+fn parse_regs(t: &str) -> Result<Vec<VirtualRegister>, String> {
+    if t == "-" || t.is_empty() {
+        return Ok(vec![]);
+    }
+    t.split(',').map(parse_reg).collect()
+}
+
+fn op_from_text(t: &str) -> Result<Op, String> {
+    let f: Vec<&str> = t.split(':').collect();
+    if f.len() < 3 {
+        return Err(format!("bad op {t}"));
+    }
+    let defs = parse_regs(f[1])?;
+    let uses = parse_regs(f[2])?;
+    let k: Vec<&str> = f[0].split('.').collect();
+    let num = |i: usize| -> Result<u64, String> {
+        k.get(i)
+            .ok_or_else(|| format!("missing number in {}", f[0]))?
+            .parse::<u64>()
+            .map_err(|_| format!("bad number in {}", f[0]))
+    };
+    let zero = VirtualRegister::Constant(ConstantRegister::Zero);
+    let d = |i: usize| -> Result<VirtualRegister, String> {
+        defs.get(i)
+            .or(defs.last())
+            .cloned()
+            .ok_or_else(|| format!("op {t} needs a def"))
+    };
+    // i-th use, padded with the last one, `$zero` if there is none
+    let u = |i: usize| -> VirtualRegister { uses.get(i).or(uses.last()).cloned().unwrap_or(zero.clone()) };
+    let imm12 = |i: usize| VirtualImmediate12::new(num(i).unwrap_or(0).min(compiler_constants::TWELVE_BITS));
+    let opcode: Either<VirtualOp, ControlFlowOp<VirtualRegister>> = match k[0] {
+        "move" => Either::Left(VirtualOp::MOVE(d(0)?, u(0))),
+        "rvrt" => Either::Left(VirtualOp::RVRT(u(0))),
+        "label" => Either::Right(ControlFlowOp::Label(Label(num(1)? as usize))),
+        "comment" => Either::Right(ControlFlowOp::Comment),
+        "jump" => Either::Right(ControlFlowOp::Jump {
+            to: Label(num(1)? as usize),
+            type_: JumpType::Unconditional,
+        }),
+        "jnz" => Either::Right(ControlFlowOp::Jump {
+            to: Label(num(1)? as usize),
+            type_: JumpType::NotZero(u(0)),
+        }),
+        "call" => Either::Right(ControlFlowOp::Jump {
+            to: Label(num(1)? as usize),
+            type_: JumpType::Call,
+        }),
+        "jmpaddr" => Either::Right(ControlFlowOp::JumpToAddr(u(0))),
+        "retcall" => Either::Right(ControlFlowOp::ReturnFromCall {
+            zero: zero.clone(),
+            reta: VirtualRegister::Constant(ConstantRegister::CallReturnAddress),
+        }),
+        "other" => {
+            let sp = VirtualRegister::Constant(ConstantRegister::StackPointer);
+            Either::Left(match k.get(1).copied().unwrap_or("") {
+                "CFEI" => VirtualOp::CFEI(sp, VirtualImmediate24::new(num(2).unwrap_or(0))),
+                "CFSI" => VirtualOp::CFSI(sp, VirtualImmediate24::new(num(2).unwrap_or(0))),
+                "NOOP" => VirtualOp::NOOP,
+                "RET" => VirtualOp::RET(u(0)),
+                "LW" => VirtualOp::LW(d(0)?, u(0), imm12(2)),
+                "SW" => VirtualOp::SW(u(0), u(1), imm12(2)),
+                "MOVI" => VirtualOp::MOVI(
+                    d(0)?,
+                    VirtualImmediate18::new(num(2).unwrap_or(0).min(compiler_constants::EIGHTEEN_BITS)),
+                ),
+                "ADDI" => VirtualOp::ADDI(d(0)?, u(0), imm12(2)),
+                "SUB" => VirtualOp::SUB(d(0)?, u(0), u(1)),
+                "MUL" => VirtualOp::MUL(d(0)?, u(0), u(1)),
+                "LT" => VirtualOp::LT(d(0)?, u(0), u(1)),
+                "EQ" => VirtualOp::EQ(d(0)?, u(0), u(1)),
+                "NOT" => VirtualOp::NOT(d(0)?, u(0)),
+                "SRW" => VirtualOp::SRW(d(0)?, d(1)?, u(0), VirtualImmediate06::new(0)),
+                "MCP" => VirtualOp::MCP(u(0), u(1), u(2)),
+                "LOG" => VirtualOp::LOG(u(0), u(1), u(2), u(3)),
+                // anything else: an opcode with the requested def/use shape
+                _ => match (defs.len(), uses.len()) {
+                    (0, 0) => VirtualOp::NOOP,
+                    (0, 1) | (0, 2) => VirtualOp::SW(u(0), u(1), imm12(9)),
+                    (0, 3) => VirtualOp::MCP(u(0), u(1), u(2)),
+                    (0, _) => VirtualOp::LOG(u(0), u(1), u(2), u(3)),
+                    (1, 0) => VirtualOp::MOVI(d(0)?, VirtualImmediate18::new(0)),
+                    (1, 1) => VirtualOp::NOT(d(0)?, u(0)),
+                    (1, _) => VirtualOp::ADD(d(0)?, u(0), u(1)),
+                    (_, _) => VirtualOp::SRW(d(0)?, d(1)?, u(0), VirtualImmediate06::new(0)),
+                },
+            })
+        }
+        other => return Err(format!("unknown op kind {other}")),
+    };
+    Ok(Op {
+        opcode,
+        comment: String::new(),
+        owning_span: None,
+    })
+}
+
+impl OpList {
+    /// Real ops from the abstract text form (only `kind`, `defs`, `uses` are read). The opcode is
+    /// the named one where this constructor knows the mnemonic, else one with the same def/use
+    /// shape; dump the result with [`OpList::text`] to obtain what the compiler sees.
+    pub fn from_text(text: &str) -> Result<OpList, String> {
+        let text = text.trim();
+        if text == "-" || text.is_empty() {
+            return Ok(OpList { ops: vec![] });
+        }
+        Ok(OpList {
+            ops: text.split('|').map(op_from_text).collect::<Result<Vec<_>, _>>()?,
+        })
+    }
+
+    pub fn len(&self) -> usize {
+        self.ops.len()
+    }
+
+    pub fn is_empty(&self) -> bool {
+        self.ops.is_empty()
+    }
+
+    /// Abstract text of these ops (virtual registers ranked within this list).
+    pub fn text(&self, with_asm: bool) -> String {
+        ops_text(&self.ops, &Namer::for_ops(&self.ops), with_asm)
+    }
+
+    /// Immediate of the (first) `CFEI`, i.e. the size of the locals the spiller starts from.
+    pub fn locals_size(&self) -> Option<u32> {
+        self.ops.iter().find_map(|op| match &op.opcode {
+            Either::Left(VirtualOp::CFEI(_, i)) => Some(i.value()),
+            _ => None,
+        })
+    }
+}
+
+// ------------------------------------------------------------------------------------------------
+// the stages, one by one, exactly in the order of `allocate_registers::try_color`
+
+/// Result of every allocator stage on one op list, all in text form, names relative to the input.
+#[derive(Default, Debug, Clone)]
+pub struct StageReport {
+    /// the input
+    pub ops: String,
+    /// `liveness_analysis(ops, true)`: one register set per op, `|` separated
+    pub live_out: String,
+    /// `create_interference_graph`: directed edges `a>b`
+    pub edges: String,
+    /// `coalesce_registers`: reduced ops, renamed live_out table, merged graph
+    pub coalesced_ops: String,
+    pub coalesced_live_out: String,
+    pub coalesced_edges: String,
+    /// `color_interference_graph`: `Ok(stack)` (bottom first) or `Err(spills)`
+    pub stack: Option<String>,
+    pub spills: Option<String>,
+    /// `assign_registers` on that stack: `Ok(v=k,…)` or `Err`
+    pub assign: Option<Result<String, String>>,
+    /// `spill_offsets(spills, round_up(locals))` as `v=offset,…` and the result of `spill`
+    pub spill_offsets: Option<String>,
+    pub spilled_ops: Option<String>,
+}
+
+/// Liveness alone (`ignore_constant_regs` as given).
+pub fn liveness(ops: &OpList, ignore_constant_regs: bool) -> String {
+    let nm = Namer::for_ops(&ops.ops);
+    sets_text(&access::liveness_analysis(&ops.ops, ignore_constant_regs), &nm)
+}
+
+pub fn stages(ops: &OpList) -> StageReport {
+    let nm = Namer::for_ops(&ops.ops);
+    let mut rep = StageReport {
+        ops: ops_text(&ops.ops, &nm, false),
+        ..Default::default()
+    };
+    let live_out = access::liveness_analysis(&ops.ops, true);
+    rep.live_out = sets_text(&live_out, &nm);
+    let (mut graph, mut reg_to_node) =
+        register_allocator::create_interference_graph(&ops.ops, &live_out);
+    rep.edges = edges_text(&graph, &nm);
+    let (cops, clive) =
+        register_allocator::coalesce_registers(&ops.ops, live_out, &mut graph, &mut reg_to_node);
+    rep.coalesced_ops = ops_text(&cops, &nm, false);
+    rep.coalesced_live_out = sets_text(&clive, &nm);
+    rep.coalesced_edges = edges_text(&graph, &nm);
+    match register_allocator::color_interference_graph(&mut graph, &cops, &clive) {
+        Ok(stack) => {
+            rep.stack = Some(nm.regs(stack.iter().map(|n| &graph[*n])));
+            let mut st = stack.clone();
+            rep.assign = Some(match access::assign_registers(&graph, &mut st) {
+                Ok(pool) => Ok(assign_text(&pool, &nm)),
+                Err(e) => Err(format!("{e:?}")),
+            });
+        }
+        Err(spills) => {
+            let sorted: BTreeSet<&VirtualRegister> = spills.iter().collect();
+            rep.spills = Some(nm.regs(sorted.iter().copied()));
+            let cfei = cops.iter().find_map(|op| match &op.opcode {
+                Either::Left(VirtualOp::CFEI(
+                    VirtualRegister::Constant(ConstantRegister::StackPointer),
+                    i,
+                )) => Some(i.value()),
+                _ => None,
+            });
+            if let Some(locals) = cfei {
+                let locals = locals.div_ceil(8) * 8;
+                let mut offs: Vec<(VirtualRegister, u32)> =
+                    access::spill_offsets(&spills, locals).into_iter().collect();
+                offs.sort();
+                rep.spill_offsets = Some(
+                    offs.iter()
+                        .map(|(r, o)| format!("{}={}", nm.reg(r), o))
+                        .collect::<Vec<_>>()
+                        .join(","),
+                );
+                rep.spilled_ops = Some(ops_text(&access::spill(&cops, &spills), &nm, false));
+            }
+        }
+    }
+    rep
+}
+
+/// The real `spill_offsets` on registers `v<k>`.
+pub fn spill_offsets(regs: &[usize], locals_size_bytes: u32) -> Vec<(usize, u32)> {
+    let mut set = FxHashSet::default();
+    for k in regs {
+        set.insert(VirtualRegister::Virtual(format!("{k:06}")));
+    }
+    let mut out: Vec<(usize, u32)> = access::spill_offsets(&set, locals_size_bytes)
+        .into_iter()
+        .map(|(r, o)| match r {
+            VirtualRegister::Virtual(n) => (n.parse().unwrap_or(usize::MAX), o),
+            VirtualRegister::Constant(_) => (usize::MAX, o),
+        })
+        .collect();
+    out.sort();
+    out
+}
+
+/// The real `assign_registers` on an arbitrary graph (nodes `0..nodes`, directed edges) and an
+/// arbitrary stack (popped from the END). `Ok` = (node, pool register) pairs sorted by node.
+pub fn assign_on_graph(
+    nodes: usize,
+    edges: &[(usize, usize)],
+    stack: &[usize],
+) -> Result<Vec<(usize, u8)>, String> {
+    let mut g = InterferenceGraph::with_capacity(0, 0);
+    let ix: Vec<NodeIndex> = (0..nodes)
+        .map(|k| g.add_node(VirtualRegister::Virtual(format!("{k:06}"))))
+        .collect();
+    for (a, b) in edges {
+        g.update_edge(ix[*a], ix[*b], true);
+    }
+    let mut st: Vec<NodeIndex> = stack.iter().map(|k| ix[*k]).collect();
+    match access::assign_registers(&g, &mut st) {
+        Ok(pool) => {
+            let mut v: Vec<(usize, u8)> = access::pool_assignment(&pool)
+                .into_iter()
+                .filter_map(|(r, a)| match (r, a) {
+                    (VirtualRegister::Virtual(n), AllocatedRegister::Allocated(k)) => {
+                        Some((n.parse().ok()?, k))
+                    }
+                    _ => None,
+                })
+                .collect();
+            v.sort();
+            Ok(v)
+        }
+        Err(e) => Err(format!("{e:?}")),
+    }
+}
+
+// ------------------------------------------------------------------------------------------------
+// the whole allocator, observed from inside
+
+#[derive(Default)]
+struct Capture {
+    final_ops: Option<Vec<Op>>,
+    pool: Vec<(VirtualRegister, AllocatedRegister)>,
+    defs_consistent: bool,
+}
+
+thread_local! {
+    static CAPTURE: RefCell<Option<Capture>> = const { RefCell::new(None) };
+    /// spill sets of the rounds of the allocation running on this thread
+    static ROUNDS: RefCell<Vec<Vec<VirtualRegister>>> = const { RefCell::new(Vec::new()) };
+}
+
+static DUMP_SEQ: std::sync::atomic::AtomicUsize = std::sync::atomic::AtomicUsize::new(0);
+
+/// Called by `allocate_registers` after each failed colouring, before `spill` (`round` counts from 1).
+pub(crate) fn on_spill(round: usize, spills: &FxHashSet<VirtualRegister>) {
+    let mut v: Vec<VirtualRegister> = spills.iter().cloned().collect();
+    v.sort();
+    ROUNDS.with(|r| {
+        let mut r = r.borrow_mut();
+        if round <= 1 {
+            r.clear();
+        }
+        r.push(v);
+    });
+}
+
+fn rounds_text(rounds: &[Vec<VirtualRegister>], nm: &Namer) -> String {
+    if rounds.is_empty() {
+        return "-".into();
+    }
+    rounds.iter().map(|s| nm.regs(s.iter())).collect::<Vec<_>>().join("|")
+}
+
+/// For every op: the allocated instruction defines exactly the images of the virtual defs.
+fn defs_consistent(final_ops: &[Op], pool: &[(VirtualRegister, AllocatedRegister)], allocated: &[AllocatedAbstractOp]) -> bool {
+    let map: HashMap<&VirtualRegister, &AllocatedRegister> = pool.iter().map(|(v, a)| (v, a)).collect();
+    final_ops.len() == allocated.len()
+        && final_ops.iter().zip(allocated).all(|(op, al)| {
+            let want: Option<BTreeSet<AllocatedRegister>> = op
+                .def_registers()
+                .into_iter()
+                .map(|r| match r {
+                    VirtualRegister::Constant(c) => Some(AllocatedRegister::Constant(*c)),
+                    v => map.get(v).map(|a| (*a).clone()),
+                })
+                .collect();
+            let got: BTreeSet<AllocatedRegister> = match &al.opcode {
+                Either::Left(i) => i.def_registers().into_iter().cloned().collect(),
+                Either::Right(c) => c.def_registers().into_iter().cloned().collect(),
+            };
+            want == Some(got)
+        })
+}
+
+/// Called by `allocate_registers` on success. `spill_rounds` = number of spill rounds that happened.
+pub(crate) fn on_allocated(
+    input: &[Op],
+    final_ops: &[Op],
+    pool: &RegisterPool,
+    allocated: &[AllocatedAbstractOp],
+    spill_rounds: usize,
+) {
+    let rounds: Vec<Vec<VirtualRegister>> = ROUNDS.with(|r| {
+        let mut r = r.borrow_mut();
+        if spill_rounds > 0 {
+            std::mem::take(&mut *r)
+        } else {
+            r.clear();
+            vec![]
+        }
+    });
+    let assignment = access::pool_assignment(pool);
+    let consistent = defs_consistent(final_ops, &assignment, allocated);
+    if let Some(dir) = std::env::var_os("SWAY_VERIF_DUMP") {
+        let nm = Namer::for_ops(input);
+        let seq = DUMP_SEQ.fetch_add(1, std::sync::atomic::Ordering::SeqCst);
+        let path = std::path::Path::new(&dir).join(format!("regalloc-{}-{seq:05}.txt", std::process::id()));
+        let text = format!(
+            "ops {}\nfinal {}\nassign {}\nspilled {}\ndefs_consistent {}\n",
+            ops_text(input, &nm, true),
+            ops_text(final_ops, &nm, true),
+            assign_text(pool, &nm),
+            rounds_text(&rounds, &nm),
+            consistent as u8
+        );
+        let _ = std::fs::create_dir_all(&dir);
+        let _ = std::fs::write(path, text);
+    }
+    CAPTURE.with(|c| {
+        if let Some(c) = c.borrow_mut().as_mut() {
+            c.final_ops = Some(final_ops.to_vec());
+            c.pool = assignment;
+            c.defs_consistent = consistent;
+        }
+    });
+    // keep the rounds for `allocate` below
+    ROUNDS.with(|r| *r.borrow_mut() = rounds);
+}
+
+/// Result of the real `allocate_registers` on one op list.
+#[derive(Default, Debug, Clone)]
+pub struct AllocReport {
+    /// `ok` or `err`
+    pub status: String,
+    pub error: String,
+    /// the virtual-register ops the assignment was applied to (after spilling and coalescing)
+    pub final_ops: String,
+    /// `v<k>=<pool register>` for every register of the pool's `used_by` sets
+    pub assign: String,
+    /// spill sets per round, `|` separated
+    pub spilled: String,
+    pub rounds: usize,
+    /// every allocated instruction defines exactly the images of the virtual defs
+    pub defs_consistent: bool,
+    pub allocated_len: usize,
+}
+
+pub fn allocate(ops: &OpList) -> AllocReport {
+    let nm = Namer::for_ops(&ops.ops);
+    CAPTURE.with(|c| *c.borrow_mut() = Some(Capture::default()));
+    ROUNDS.with(|r| r.borrow_mut().clear());
+    let res = register_allocator::allocate_registers(&ops.ops);
+    let cap = CAPTURE.with(|c| c.borrow_mut().take()).unwrap_or_default();
+    let rounds = ROUNDS.with(|r| std::mem::take(&mut *r.borrow_mut()));
+    let mut rep = AllocReport {
+        spilled: rounds_text(&rounds, &nm),
+        rounds: rounds.len(),
+        ..Default::default()
+    };
+    match res {
+        Ok(allocated) => {
+            rep.status = "ok".into();
+            rep.allocated_len = allocated.len();
+            rep.final_ops = ops_text(cap.final_ops.as_deref().unwrap_or(&[]), &nm, false);
+            let mut v = cap.pool.clone();
+            v.sort();
+            rep.assign = if v.is_empty() {
+                "-".into()
+            } else {
+                v.iter()
+                    .map(|(r, a)| match a {
+                        AllocatedRegister::Allocated(k) => format!("{}={}", nm.reg(r), k),
+                        AllocatedRegister::Constant(c) => format!("{}=c{}", nm.reg(r), const_index(*c)),
+                    })
+                    .collect::<Vec<_>>()
+                    .join(",")
+            };
+            rep.defs_consistent = cap.defs_consistent;
+        }
+        Err(e) => {
+            rep.status = "err".into();
+            rep.error = format!("{e:?}");
+        }
+    }
+    rep
+}
